@@ -104,7 +104,7 @@ Definition int_part_ok (d : ustr) : bool :=
    (dot, one or more digits), optional exponent (e or E, optional sign, one or more digits) *)
 Inductive numkind := NumInt (neg : bool) (digits : ustr) | NumFloat | NumBad.
 Definition number_kind (a : ustr) : numkind :=
-  let (neg, body) := match a with 45 :: r => (true, r) | _ => (false, a) end in
+  let (neg, body) := match a with c :: r => if c =? 45 then (true, r) else (false, a) | [] => (false, a) end in
   let (ip, r1) := span_digits body in
   if negb (int_part_ok ip) then NumBad else
   match r1 with
